@@ -161,9 +161,24 @@ theorem hasTy_congr (env : Env) (fa : Nat) (t t' : TE) (h : view env fa t = view
 
 /-! ## every code shape the generator chooses is a good copy, given good callees -/
 
-/-- what `generateFor` is assumed to do in the recursive positions -/
-def RecGood (env : Env) (fa : Nat) (call : Copier) (rec : TE → Code) : Prop :=
-  ∀ t v n, (rec t).ok = true → v ≠ .nil → HasTy env fa v t → Good v n (exec call (rec t) v n)
+/-- the generated methods of the struct types are good on all values of depth below `d` -/
+def GenGood (env : Env) (fa : Nat) (gen : TE → Copier) (d : Nat) : Prop :=
+  ∀ t v n, depth v < d → HasTy env fa v t → (∃ fs, view env fa t = .struct fs) → hasCustom env t = false →
+    Good v n (gen t v n)
+
+/-- what `generateFor` is assumed to do in the recursive positions, on values of depth at most `d` -/
+def RecGood (env : Env) (fa : Nat) (call : Copier) (gen : TE → Copier) (d : Nat) (rec : TE → Code) : Prop :=
+  ∀ t v n, (rec t).ok = true → v ≠ .nil → depth v ≤ d → HasTy env fa v t → Good v n (exec call gen (rec t) v n)
+
+theorem allP_and (P Q : Val → Prop) : ∀ vs, AllP P vs → AllP Q vs → AllP (fun v => P v ∧ Q v) vs
+  | .nil, _, _ => trivial
+  | .cons _ vs, hp, hq => ⟨⟨hp.1, hq.1⟩, allP_and P Q vs hp.2 hq.2⟩
+
+theorem allP_depth (d : Nat) : ∀ vs, depthL vs < d → AllP (fun v => depth v < d) vs
+  | .nil, _ => trivial
+  | .cons v vs, h => by
+    simp only [depthL] at h
+    exact ⟨by omega, allP_depth d vs (by omega)⟩
 
 theorem empty_noaddr (env : Env) (fa : Nat) (v : Val) (ht : HasTy env fa v .empty) : addrs v = [] := by
   have hv : view env fa .empty = .struct [] := by cases fa <;> rfl
@@ -179,10 +194,11 @@ theorem iface_shape (env : Env) (fa : Nat) (v : Val) (t : TE) (nm : Str) (hv : v
   · exact .inl rfl
   · exact .inr ⟨_, rfl⟩
 
-theorem mapValOf_good (env : Env) (fa : Nat) (call : Copier) (hcall : GoodCopier call) (rec : TE → Code)
-    (hrec : RecGood env fa call rec) (e : TE) (v : Val) (n : Nat)
-    (hok : (mapValOf env fa rec e).ok = true) (ht : HasTy env fa v e) :
-    Good v n (exec call (mapValOf env fa rec e) v n) := by
+theorem mapValOf_good (env : Env) (fa : Nat) (call : Copier) (hcall : GoodCopier call) (gen : TE → Copier) (d : Nat)
+    (hgen : GenGood env fa gen d) (rec : TE → Code)
+    (hrec : RecGood env fa call gen d rec) (e : TE) (v : Val) (n : Nat)
+    (hok : (mapValOf env fa rec e).ok = true) (hd : depth v < d) (ht : HasTy env fa v e) :
+    Good v n (exec call gen (mapValOf env fa rec e) v n) := by
   unfold mapValOf at hok ⊢
   by_cases hc : hasCustom env e = true
   · simp only [hc, ↓reduceIte]
@@ -196,6 +212,9 @@ theorem mapValOf_good (env : Env) (fa : Nat) (call : Copier) (hcall : GoodCopier
       · simp only [ha, ↓reduceIte]
         exact good_keep _ _ (noaddr env fa fa e v ha ht)
       · simp only [ha, Bool.false_eq_true, ↓reduceIte] at hok ⊢
+        have href : (rec e).ok = true → Good v n (guarded (exec call gen (rec e)) v n) := fun hk =>
+          guarded_good _ (fun v => HasTy env fa v e ∧ depth v ≤ d)
+            (fun v n hne hp => hrec e v n hk hne hp.2 hp.1) v n ⟨ht, by omega⟩
         cases hv : view env fa e with
         | iface nm =>
           simp only [hv] at hok ⊢
@@ -203,16 +222,10 @@ theorem mapValOf_good (env : Env) (fa : Nat) (call : Copier) (hcall : GoodCopier
           · simp [hn, Code.ok] at hok
           · simp only [hn, ↓reduceIte]
             exact ifaceCopy_good call hcall v n (iface_shape env fa v e nm hv ht)
-        | slice e' =>
-          simp only [hv] at hok ⊢
-          exact guarded_good _ (fun v => HasTy env fa v e) (fun v n hne hp => hrec e v n (by simpa [Code.ok] using hok) hne hp) v n ht
-        | map k e' =>
-          simp only [hv] at hok ⊢
-          exact guarded_good _ (fun v => HasTy env fa v e) (fun v n hne hp => hrec e v n (by simpa [Code.ok] using hok) hne hp) v n ht
-        | ptr e' =>
-          simp only [hv] at hok ⊢
-          exact guarded_good _ (fun v => HasTy env fa v e) (fun v n hne hp => hrec e v n (by simpa [Code.ok] using hok) hne hp) v n ht
-        | struct fs => simp only [hv]; exact hcall v n
+        | slice e' => simp only [hv] at hok ⊢; exact href (by simpa [Code.ok] using hok)
+        | map k e' => simp only [hv] at hok ⊢; exact href (by simpa [Code.ok] using hok)
+        | ptr e' => simp only [hv] at hok ⊢; exact href (by simpa [Code.ok] using hok)
+        | struct fs => simp only [hv]; exact hgen e v n hd ht ⟨fs, hv⟩ (by simpa using hc)
         | builtin => simp [hv, Code.ok] at hok
         | array _ _ => simp [hv, Code.ok] at hok
         | unknown => simp [hv, Code.ok] at hok
@@ -225,11 +238,12 @@ theorem addrsL_nil : ∀ vs : Vals, AllP (fun v => addrs v = []) vs → addrsL v
   | .nil, _ => rfl
   | .cons v vs, h => by simp only [addrsL]; rw [h.1, addrsL_nil vs h.2]; rfl
 
-theorem sliceBodyOf_good (env : Env) (fa : Nat) (call : Copier) (hcall : GoodCopier call) (rec : TE → Code)
-    (hrec : RecGood env fa call rec) (t e : TE) (a : Nat) (vs : Vals) (n : Nat)
-    (hok : (sliceBodyOf env fa rec t e).ok = true) (ht : AllTy env fa vs e) :
-    Good (.slice a vs) n (exec call (sliceBodyOf env fa rec t e) (.slice a vs) n) := by
-  have hall := allTy_allP env fa e vs ht
+theorem sliceBodyOf_good (env : Env) (fa : Nat) (call : Copier) (hcall : GoodCopier call) (gen : TE → Copier) (d : Nat)
+    (hgen : GenGood env fa gen d) (rec : TE → Code)
+    (hrec : RecGood env fa call gen d rec) (t e : TE) (a : Nat) (vs : Vals) (n : Nat)
+    (hok : (sliceBodyOf env fa rec t e).ok = true) (hd : depthL vs < d) (ht : AllTy env fa vs e) :
+    Good (.slice a vs) n (exec call gen (sliceBodyOf env fa rec t e) (.slice a vs) n) := by
+  have hall := allP_and _ _ vs (allTy_allP env fa e vs ht) (allP_depth d vs hd)
   unfold sliceBodyOf at hok ⊢
   by_cases hc : hasCustom env e = true
   · simp only [hc, ↓reduceIte, exec]
@@ -247,28 +261,30 @@ theorem sliceBodyOf_good (env : Env) (fa : Nat) (call : Copier) (hcall : GoodCop
       simp only [hv, exec]
       apply hcopy
       refine allP_mono _ _ (fun v hvt => ?_) vs hall
+      have hvt := hvt.1
       cases v <;> simp only [HasTy, hv] at hvt
       simp [addrs]
     | _ =>
       simp only [hv] at hok ⊢
       by_cases ha : assignable env fa e = true
       · simp only [ha, ↓reduceIte, exec]
-        exact hcopy (allP_mono _ _ (fun v hvt => noaddr env fa fa e v ha hvt) vs hall)
+        exact hcopy (allP_mono _ _ (fun v hvt => noaddr env fa fa e v ha hvt.1) vs hall)
       · simp only [ha, Bool.false_eq_true, ↓reduceIte] at hok ⊢
         first
         | (simp only [exec]
-           exact (wrap_good vs n _ (mapVals_good _ (fun v => HasTy env fa v e)
-              (fun v n hp => guarded_good _ (fun v => HasTy env fa v e)
-                (fun v n hne hp => hrec e v n (by simpa [Code.ok] using hok) hne hp) v n hp) vs (n + 1) hall)).1 a)
-        | (simp only [exec]
-           exact (wrap_good vs n _ (mapVals_good call (fun _ => True) (fun v n _ => hcall v n) vs (n + 1)
-              (allP_mono _ _ (fun _ _ => trivial) vs hall))).1 a)
+           exact (wrap_good vs n _ (mapVals_good _ (fun v => HasTy env fa v e ∧ depth v < d)
+              (fun v n hp => guarded_good _ (fun v => HasTy env fa v e ∧ depth v ≤ d)
+                (fun v n hne hp => hrec e v n (by simpa [Code.ok] using hok) hne hp.2 hp.1) v n ⟨hp.1, by omega⟩) vs (n + 1) hall)).1 a)
+        | (rename_i fs
+           simp only [exec]
+           exact (wrap_good vs n _ (mapVals_good (gen e) (fun v => HasTy env fa v e ∧ depth v < d)
+              (fun v n hp => hgen e v n hp.2 hp.1 ⟨fs, hv⟩ (by simpa using hc)) vs (n + 1) hall)).1 a)
         | (rename_i nm
            by_cases hn : nm = kEmptyIface
            · simp [hn, Code.ok] at hok
            · simp only [hn, ↓reduceIte, exec]
-             exact (wrap_good vs n _ (mapVals_good _ (fun v => HasTy env fa v e)
-                (fun v n hp => ifaceCopy_good call hcall v n (iface_shape env fa v e nm hv hp)) vs (n + 1) hall)).1 a)
+             exact (wrap_good vs n _ (mapVals_good _ (fun v => HasTy env fa v e ∧ depth v < d)
+                (fun v n hp => ifaceCopy_good call hcall v n (iface_shape env fa v e nm hv hp.1)) vs (n + 1) hall)).1 a)
         | simp [Code.ok] at hok
 
 theorem arr_good (vs : Vals) (n : Nat) (r : Vals × Nat) (h : GoodL vs n r) : Good (.arr vs) n (.arr r.1, r.2) := by
@@ -305,15 +321,16 @@ theorem arrNoaddr (env : Env) (fa : Nat) : ∀ (f : Nat) (e : TE) (v : Val),
         simp only [hv] at ha
         exact noaddr env fa fa e v ha ht
 
-theorem arrayElemOf_good (env : Env) (fa : Nat) (call : Copier) (hcall : GoodCopier call) (rec : TE → Code)
-    (hrec : RecGood env fa call rec) : ∀ (f : Nat) (e : TE) (v : Val) (n : Nat),
-    (arrayElemOf env fa rec f e).ok = true → HasTy env fa v e →
-    Good v n (exec call (arrayElemOf env fa rec f e) v n) := by
+theorem arrayElemOf_good (env : Env) (fa : Nat) (call : Copier) (hcall : GoodCopier call) (gen : TE → Copier) (d : Nat)
+    (hgen : GenGood env fa gen d) (rec : TE → Code)
+    (hrec : RecGood env fa call gen d rec) : ∀ (f : Nat) (e : TE) (v : Val) (n : Nat),
+    (arrayElemOf env fa rec f e).ok = true → depth v < d → HasTy env fa v e →
+    Good v n (exec call gen (arrayElemOf env fa rec f e) v n) := by
   intro f
   induction f with
   | zero => intro e v n hok; simp [arrayElemOf, Code.ok] at hok
   | succ f ih =>
-    intro e v n hok ht
+    intro e v n hok hd ht
     unfold arrayElemOf at hok ⊢
     by_cases hc : hasCustom env e = true
     · simp only [hc, ↓reduceIte]; exact hcall v n
@@ -323,32 +340,35 @@ theorem arrayElemOf_good (env : Env) (fa : Nat) (call : Copier) (hcall : GoodCop
         simp only [hv] at hok ⊢
         cases v <;> simp only [HasTy, hv] at ht
         rename_i vs
-        have hall := allTy_allP env fa e' vs ht
+        simp only [depth] at hd
+        have hall := allP_and _ _ vs (allTy_allP env fa e' vs ht) (allP_depth d vs (by omega))
         by_cases ha : arrayAssignable env fa fa e' = true
         · simp only [ha, ↓reduceIte]
           apply good_keep
           simp only [addrs]
-          exact addrsL_nil vs (allP_mono _ _ (fun w hw => arrNoaddr env fa fa e' w ha hw) vs hall)
+          exact addrsL_nil vs (allP_mono _ _ (fun w hw => arrNoaddr env fa fa e' w ha hw.1) vs hall)
         · simp only [ha, Bool.false_eq_true, ↓reduceIte, exec] at hok ⊢
-          exact arr_good vs n _ (mapVals_good _ (fun w => HasTy env fa w e')
-            (fun w n hw => ih e' w n (by simpa [Code.ok] using hok) hw) vs n hall)
+          exact arr_good vs n _ (mapVals_good _ (fun w => HasTy env fa w e' ∧ depth w < d)
+            (fun w n hw => ih e' w n (by simpa [Code.ok] using hok) hw.2 hw.1) vs n hall)
       | iface nm =>
         simp only [hv] at hok ⊢
         by_cases hn : nm = kEmptyIface
         · simp [hn, Code.ok] at hok
         · simp only [hn, ↓reduceIte]
           exact ifaceCopy_good call hcall v n (iface_shape env fa v e nm hv ht)
-      | struct fs => simp only [hv]; exact hcall v n
+      | struct fs => simp only [hv]; exact hgen e v n hd ht ⟨fs, hv⟩ (by simpa using hc)
       | builtin => simp [hv, Code.ok] at hok
       | unknown => simp [hv, Code.ok] at hok
       | _ =>
         simp only [hv] at hok ⊢
-        exact guarded_good _ (fun v => HasTy env fa v e) (fun v n hne hp => hrec e v n (by simpa [Code.ok] using hok) hne hp) v n ht
+        exact guarded_good _ (fun v => HasTy env fa v e ∧ depth v ≤ d)
+          (fun v n hne hp => hrec e v n (by simpa [Code.ok] using hok) hne hp.2 hp.1) v n ⟨ht, by omega⟩
 
-theorem fixOf_good (env : Env) (fa : Nat) (call : Copier) (hcall : GoodCopier call) (rec : TE → Code)
-    (hrec : RecGood env fa call rec) (m : Field) (v : Val) (n : Nat)
-    (hok : (fixOf env fa rec m).ok = true) (ht : HasTy env fa v m.t) :
-    Good v n (exec call (fixOf env fa rec m) v n) := by
+theorem fixOf_good (env : Env) (fa : Nat) (call : Copier) (hcall : GoodCopier call) (gen : TE → Copier) (d : Nat)
+    (hgen : GenGood env fa gen d) (rec : TE → Code)
+    (hrec : RecGood env fa call gen d rec) (m : Field) (v : Val) (n : Nat)
+    (hok : (fixOf env fa rec m).ok = true) (hd : depth v < d) (ht : HasTy env fa v m.t) :
+    Good v n (exec call gen (fixOf env fa rec m) v n) := by
   unfold fixOf at hok ⊢
   by_cases hc : hasCustom env m.t = true
   · simp only [hc, ↓reduceIte]; split <;> exact hcall v n
@@ -362,21 +382,23 @@ theorem fixOf_good (env : Env) (fa : Nat) (call : Copier) (hcall : GoodCopier ca
       simp only [hv] at hok ⊢
       cases v <;> simp only [HasTy, hv] at ht
       rename_i vs
-      have hall := allTy_allP env fa e vs ht
+      simp only [depth] at hd
+      have hall := allP_and _ _ vs (allTy_allP env fa e vs ht) (allP_depth d vs (by omega))
       by_cases ha : arrayAssignable env fa fa e = true
       · simp only [ha, ↓reduceIte]
         apply good_keep
         simp only [addrs]
-        exact addrsL_nil vs (allP_mono _ _ (fun w hw => arrNoaddr env fa fa e w ha hw) vs hall)
+        exact addrsL_nil vs (allP_mono _ _ (fun w hw => arrNoaddr env fa fa e w ha hw.1) vs hall)
       · simp only [ha, Bool.false_eq_true, ↓reduceIte, exec] at hok ⊢
-        exact arr_good vs n _ (mapVals_good _ (fun w => HasTy env fa w e)
-          (fun w n hw => arrayElemOf_good env fa call hcall rec hrec fa e w n (by simpa [Code.ok] using hok) hw) vs n hall)
+        exact arr_good vs n _ (mapVals_good _ (fun w => HasTy env fa w e ∧ depth w < d)
+          (fun w n hw => arrayElemOf_good env fa call hcall gen d hgen rec hrec fa e w n (by simpa [Code.ok] using hok) hw.2 hw.1) vs n hall)
     | struct fs =>
       simp only [hv] at hok ⊢
       by_cases ha : assignable env fa m.t = true
       · simp only [ha, ↓reduceIte]
         exact good_keep _ _ (noaddr env fa fa m.t v ha ht)
-      · simp only [ha, Bool.false_eq_true, ↓reduceIte]; exact hcall v n
+      · simp only [ha, Bool.false_eq_true, ↓reduceIte]
+        exact hgen m.t v n hd ht ⟨fs, hv⟩ (by simpa using hc)
     | iface nm =>
       simp only [hv] at hok ⊢
       by_cases hn : nm = kEmptyIface
@@ -386,20 +408,23 @@ theorem fixOf_good (env : Env) (fa : Nat) (call : Copier) (hcall : GoodCopier ca
     | unknown => simp [hv, Code.ok] at hok
     | _ =>
       simp only [hv] at hok ⊢
-      exact guarded_good _ (fun v => HasTy env fa v m.t) (fun v n hne hp => hrec m.t v n (by simpa [Code.ok] using hok) hne hp) v n ht
+      exact guarded_good _ (fun v => HasTy env fa v m.t ∧ depth v ≤ d)
+        (fun v n hne hp => hrec m.t v n (by simpa [Code.ok] using hok) hne hp.2 hp.1) v n ⟨ht, by omega⟩
 
-theorem fixupsOf_good (env : Env) (fa : Nat) (call : Copier) (hcall : GoodCopier call) (rec : TE → Code)
-    (hrec : RecGood env fa call rec) : ∀ (fs : List Field) (vs : Vals) (n : Nat),
-    (fixupsOf env fa rec fs).ok = true → FieldsTy env fa vs fs →
-    GoodL vs n (execFix call (fixupsOf env fa rec fs) vs n)
-  | [], .nil, n, _, _ => by simp [fixupsOf, execFix, GoodL, eraseL, addrsL]
-  | [], .cons _ _, _, _, h => by simp [FieldsTy] at h
-  | _ :: _, .nil, _, _, h => by simp [FieldsTy] at h
-  | m :: fs, .cons v vs, n, hok, h => by
+theorem fixupsOf_good (env : Env) (fa : Nat) (call : Copier) (hcall : GoodCopier call) (gen : TE → Copier) (d : Nat)
+    (hgen : GenGood env fa gen d) (rec : TE → Code)
+    (hrec : RecGood env fa call gen d rec) : ∀ (fs : List Field) (vs : Vals) (n : Nat),
+    (fixupsOf env fa rec fs).ok = true → depthL vs < d → FieldsTy env fa vs fs →
+    GoodL vs n (execFix call gen (fixupsOf env fa rec fs) vs n)
+  | [], .nil, n, _, _, _ => by simp [fixupsOf, execFix, GoodL, eraseL, addrsL]
+  | [], .cons _ _, _, _, _, h => by simp [FieldsTy] at h
+  | _ :: _, .nil, _, _, _, h => by simp [FieldsTy] at h
+  | m :: fs, .cons v vs, n, hok, hd, h => by
     simp only [FieldsTy] at h
+    simp only [depthL] at hd
     simp only [fixupsOf, Code.ok, Bool.and_eq_true] at hok
-    have h1 := fixOf_good env fa call hcall rec hrec m v n hok.1 h.1
-    have h2 := fixupsOf_good env fa call hcall rec hrec fs vs (exec call (fixOf env fa rec m) v n).2 hok.2 h.2
+    have h1 := fixOf_good env fa call hcall gen d hgen rec hrec m v n hok.1 (by omega) h.1
+    have h2 := fixupsOf_good env fa call hcall gen d hgen rec hrec fs vs (exec call gen (fixOf env fa rec m) v n).2 hok.2 (by omega) h.2
     obtain ⟨e1, l1, a1⟩ := h1
     obtain ⟨e2, l2, a2⟩ := h2
     simp only [fixupsOf, execFix, GoodL, eraseL, addrsL]
@@ -409,48 +434,52 @@ theorem fixupsOf_good (env : Env) (fa : Nat) (call : Copier) (hcall : GoodCopier
     · have := a1 a ha; omega
     · have := a2 a ha; omega
 
-theorem ptrBodyOf_good (env : Env) (fa : Nat) (call : Copier) (hcall : GoodCopier call) (rec : TE → Code)
-    (hrec : RecGood env fa call rec) (dp : Bool) (e : TE) (a : Nat) (d : Val) (n : Nat)
-    (hok : (ptrBodyOf env fa rec dp e).ok = true) (ht : HasTy env fa d e) :
-    Good (.ptr a d) n (exec call (ptrBodyOf env fa rec dp e) (.ptr a d) n) := by
+theorem ptrBodyOf_good (env : Env) (fa : Nat) (call : Copier) (hcall : GoodCopier call) (gen : TE → Copier) (d : Nat)
+    (hgen : GenGood env fa gen d) (rec : TE → Code)
+    (hrec : RecGood env fa call gen d rec) (dp : Bool) (e : TE) (a : Nat) (pv : Val) (n : Nat)
+    (hok : (ptrBodyOf env fa rec dp e).ok = true) (hd : depth pv < d) (ht : HasTy env fa pv e) :
+    Good (.ptr a pv) n (exec call gen (ptrBodyOf env fa rec dp e) (.ptr a pv) n) := by
   unfold ptrBodyOf at hok ⊢
   by_cases hc : hasCustom env e = true
   · simp only [hc, ↓reduceIte]
-    split <;> (simp only [exec]; exact wrap_ptr_good d n _ (hcall d (n + 1)) a)
+    split <;> (simp only [exec]; exact wrap_ptr_good pv n _ (hcall pv (n + 1)) a)
   · simp only [hc, Bool.false_eq_true, ↓reduceIte] at hok ⊢
     by_cases ha : assignable env fa e = true
     · simp only [ha, ↓reduceIte, exec]
       refine ⟨by simp [erase], by omega, ?_⟩
       intro x hx
-      simp only [addrs, noaddr env fa fa e d ha ht] at hx
+      simp only [addrs, noaddr env fa fa e pv ha ht] at hx
       simp at hx; omega
     · simp only [ha, Bool.false_eq_true, ↓reduceIte] at hok ⊢
       have href : ∀ (hne : view env fa e ≠ .unknown) (hk : (rec (underTE env fa e)).ok = true),
-          Good (.ptr a d) n (exec call (.ptrRef e (rec (underTE env fa e))) (.ptr a d) n) := by
+          Good (.ptr a pv) n (exec call gen (.ptrRef e (rec (underTE env fa e))) (.ptr a pv) n) := by
         intro hne hk
         simp only [exec]
         apply wrap_ptr_good
-        exact guarded_good _ (fun v => HasTy env fa v (underTE env fa e))
-          (fun v n hnil hp => hrec _ v n hk hnil hp) d (n + 1)
-          (hasTy_congr env fa e _ (view_underTE env fa e hne).symm d ht)
+        exact guarded_good _ (fun v => HasTy env fa v (underTE env fa e) ∧ depth v ≤ d)
+          (fun v n hnil hp => hrec _ v n hk hnil hp.2 hp.1) pv (n + 1)
+          ⟨hasTy_congr env fa e _ (view_underTE env fa e hne).symm pv ht, by omega⟩
       cases hv : view env fa e with
-      | struct fs => simp only [hv, exec]; exact wrap_ptr_good d n _ (hcall d (n + 1)) a
+      | struct fs =>
+        simp only [hv, exec]
+        exact wrap_ptr_good pv n _ (hgen e pv (n + 1) hd ht ⟨fs, hv⟩ (by simpa using hc)) a
       | map k e' => simp only [hv] at hok ⊢; exact href (by simp [hv]) (by simpa [Code.ok] using hok)
       | slice e' => simp only [hv] at hok ⊢; exact href (by simp [hv]) (by simpa [Code.ok] using hok)
       | ptr e' => simp only [hv] at hok ⊢; exact href (by simp [hv]) (by simpa [Code.ok] using hok)
       | _ => simp [hv, Code.ok] at hok
 
-/-- **generateFor_is_deep_copy** (modular): for every type the generator accepts (no `klog.Fatalf`) and
-every non-nil value of it, the emitted body leaves in `*out` a value deeply equal to `*in` (nil versus
-empty included) that is built from freshly allocated storage only – provided the methods it calls
-(hand-written ones, `DeepCopyInto` of other struct types, `DeepCopy<Iface>` of dynamic values) are good -/
-theorem genFor_good (env : Env) (fa : Nat) (call : Copier) (hcall : GoodCopier call) :
-    ∀ f, RecGood env fa call (genFor env fa f) := by
+/-- **generateFor_is_deep_copy** (one method body): for every type the generator accepts (no `klog.Fatalf`)
+and every non-nil value of it of depth at most `d`, the emitted body leaves in `*out` a value deeply equal
+to `*in` (nil versus empty included) that is built from freshly allocated storage only – provided the
+hand-written methods and the `DeepCopy<Iface>` methods of dynamic values are good, and the generated methods
+of the struct types it calls are good on values of depth below `d` -/
+theorem genFor_good (env : Env) (fa : Nat) (call : Copier) (hcall : GoodCopier call) (gen : TE → Copier) (d : Nat)
+    (hgen : GenGood env fa gen d) : ∀ f, RecGood env fa call gen d (genFor env fa f) := by
   intro f
   induction f with
   | zero => intro t v n hok; simp [genFor, Code.ok] at hok
   | succ f ih =>
-    intro t v n hok hne ht
+    intro t v n hok hne hd ht
     unfold genFor at hok ⊢
     cases hv : view env fa t with
     | builtin =>
@@ -469,10 +498,11 @@ theorem genFor_good (env : Env) (fa : Nat) (call : Copier) (hcall : GoodCopier c
           cases v <;> simp only [HasTy, hv] at ht
           · exact absurd rfl hne
           · rename_i a vs
+            simp only [depth] at hd
             simp only [exec]
-            exact (wrap_good vs n _ (mapVals_good _ (fun w => HasTy env fa w e)
-              (fun w n hw => mapValOf_good env fa call hcall _ ih e w n (by simpa [Code.ok] using hok) hw)
-              vs (n + 1) (allTy_allP env fa e vs ht))).2 a
+            exact (wrap_good vs n _ (mapVals_good _ (fun w => HasTy env fa w e ∧ depth w < d)
+              (fun w n hw => mapValOf_good env fa call hcall gen d hgen _ ih e w n (by simpa [Code.ok] using hok) hw.2 hw.1)
+              vs (n + 1) (allP_and _ _ vs (allTy_allP env fa e vs ht) (allP_depth d vs (by omega))))).2 a
         · simp [hk, Code.ok] at hok
     | slice e =>
       simp only [hv] at hok ⊢
@@ -481,7 +511,8 @@ theorem genFor_good (env : Env) (fa : Nat) (call : Copier) (hcall : GoodCopier c
       · simp only [hc, Bool.false_eq_true, ↓reduceIte] at hok ⊢
         cases v <;> simp only [HasTy, hv] at ht
         · exact absurd rfl hne
-        · exact sliceBodyOf_good env fa call hcall _ ih t e _ _ n hok ht
+        · simp only [depth] at hd
+          exact sliceBodyOf_good env fa call hcall gen d hgen _ ih t e _ _ n hok (by omega) ht
     | struct fs =>
       simp only [hv] at hok ⊢
       by_cases hc : hasCustom env t = true
@@ -489,20 +520,49 @@ theorem genFor_good (env : Env) (fa : Nat) (call : Copier) (hcall : GoodCopier c
       · simp only [hc, Bool.false_eq_true, ↓reduceIte] at hok ⊢
         cases v <;> simp only [HasTy, hv] at ht
         rename_i vs
+        simp only [depth] at hd
         simp only [exec]
-        exact struct_good vs n _ (fixupsOf_good env fa call hcall _ ih fs vs n (by simpa [Code.ok] using hok) ht)
+        exact struct_good vs n _ (fixupsOf_good env fa call hcall gen d hgen _ ih fs vs n (by simpa [Code.ok] using hok) (by omega) ht)
     | ptr e =>
       simp only [hv] at hok ⊢
       cases v <;> simp only [HasTy, hv] at ht
       · exact absurd rfl hne
-      · exact ptrBodyOf_good env fa call hcall _ ih _ e _ _ n hok ht
+      · simp only [depth] at hd
+        exact ptrBodyOf_good env fa call hcall gen d hgen _ ih _ e _ _ n hok (by omega) ht
     | _ => simp [hv, Code.ok] at hok
+
+/-! ## closing the loop: the generated methods call each other -/
+
+/-- the generated `DeepCopyInto` of struct type `t`, `k` levels of calls deep (at level 0 nothing is known:
+the value is returned as it is) -/
+def methodCopy (env : Env) (fa : Nat) (call : Copier) : Nat → TE → Copier
+  | 0, _ => fun v n => (v, n)
+  | k + 1, t => exec call (methodCopy env fa call k) (genFor env fa fa t)
+
+/-- the generator accepts every struct type of the program (the tool ran through without `klog.Fatalf`) -/
+def Accepted (env : Env) (fa : Nat) : Prop :=
+  ∀ t fs, view env fa t = .struct fs → hasCustom env t = false → (genFor env fa fa t).ok = true
+
+/-- **generated_methods_are_deep_copies**: with `k` levels of calls available, the generated methods are good
+on every value of depth below `k` – no assumption about generated code is left, only the hand-written
+methods and the interface implementations are assumed good -/
+theorem methodCopy_good (env : Env) (fa : Nat) (call : Copier) (hcall : GoodCopier call) (hacc : Accepted env fa) :
+    ∀ k, GenGood env fa (methodCopy env fa call k) k := by
+  intro k
+  induction k with
+  | zero => intro t v n hd; omega
+  | succ k ih =>
+    intro t v n hd ht hs hc
+    obtain ⟨fs, hv⟩ := hs
+    have hne : v ≠ .nil := by
+      intro e; subst e; simp [HasTy, hv] at ht
+    exact genFor_good env fa call hcall _ k ih fa t v n (hacc t fs hv hc) hne (by omega) ht
 
 /-! ## the generated methods -/
 
 /-- `DeepCopy()` of a generated type: the nil test for reference types, then `DeepCopyInto` into a new value -/
-def deepCopy (call : Copier) (reference : Bool) (into : Code) : Copier := fun v n =>
-  if reference then guarded (exec call into) v n else exec call into v n
+def deepCopy (call : Copier) (gen : TE → Copier) (reference : Bool) (into : Code) : Copier := fun v n =>
+  if reference then guarded (exec call gen into) v n else exec call gen into v n
 
 theorem selected_not_iface (env : Env) (fa : Nat) (d : Decl) (hfind : env.find d.qname = some d)
     (hsel : selected env fa d = true) (nm : Str) : view env fa (.named d.qname) ≠ .iface nm := by
@@ -522,26 +582,32 @@ theorem selected_not_iface (env : Env) (fa : Nat) (d : Decl) (hfind : env.find d
         | succ f => simp [view, hfind, hk] at hv
       | alias => simp [hk, hv] at hc
 
-/-- **deepcopy_is_deep**: `DeepCopy()` of a type selected for generation returns a value deeply equal to the
-receiver, nil for nil, from fresh storage only -/
-theorem deepCopy_good (env : Env) (fa : Nat) (call : Copier) (hcall : GoodCopier call) (d : Decl) (code : Code)
+/-- **deepcopy_is_deep**: `DeepCopy()` of a type selected for generation returns, for every value of the type,
+a value deeply equal to the receiver (nil for nil, empty for empty) built from fresh storage only. The
+generated methods it reaches are the ones the generator emits (`methodCopy`); assumed good are only the
+hand-written methods and the `DeepCopy<Iface>` implementations (`call`). -/
+theorem deepCopy_good (env : Env) (fa : Nat) (call : Copier) (hcall : GoodCopier call) (hacc : Accepted env fa)
+    (d : Decl) (code : Code)
     (hfind : env.find d.qname = some d) (hsel : selected env fa d = true)
     (hcode : (methodsOf env fa d).into = some code) (hok : code.ok = true) (v : Val) (n : Nat)
     (ht : HasTy env fa v (.named d.qname)) :
-    Good v n (deepCopy call (methodsOf env fa d).reference code v n) := by
-  have hbody : ∀ w m, w ≠ .nil → HasTy env fa w (.named d.qname) → Good w m (exec call code w m) := by
-    intro w m hne hw
+    Good v n (deepCopy call (methodCopy env fa call (depth v)) (methodsOf env fa d).reference code v n) := by
+  have hbody : ∀ w m, w ≠ .nil → depth w ≤ depth v → HasTy env fa w (.named d.qname) →
+      Good w m (exec call (methodCopy env fa call (depth v)) code w m) := by
+    intro w m hne hdw hw
     simp only [methodsOf] at hcode
     split at hcode
     · cases hcode
     · split at hcode
       · cases hcode; exact hcall w m
-      · cases hcode; exact genFor_good env fa call hcall fa _ w m hok hne hw
+      · cases hcode
+        exact genFor_good env fa call hcall _ (depth v) (methodCopy_good env fa call hcall hacc (depth v)) fa _ w m hok hne hdw hw
   unfold deepCopy
   split
-  · exact guarded_good _ (fun w => HasTy env fa w (.named d.qname)) (fun w m hne hw => hbody w m hne hw) v n ht
+  · exact guarded_good _ (fun w => HasTy env fa w (.named d.qname) ∧ depth w ≤ depth v)
+      (fun w m hne hw => hbody w m hne hw.2 hw.1) v n ⟨ht, Nat.le_refl _⟩
   · rename_i href
-    apply hbody v n _ ht
+    apply hbody v n _ (Nat.le_refl _) ht
     -- a value of a non-reference type is never nil
     intro hnil; subst hnil
     simp only [methodsOf, isReference] at href
@@ -569,14 +635,14 @@ theorem handwritten_not_regenerated (env : Env) (fa : Nat) (d : Decl) :
 
 /-- **handwritten_called**: wherever a value of a type with hand-written methods occurs – map value, slice
 element, struct member, array element, pointee – the emitted code copies it by calling those methods -/
-theorem handwritten_called (env : Env) (fa : Nat) (call : Copier) (rec : TE → Code) (e : TE)
+theorem handwritten_called (env : Env) (fa : Nat) (call : Copier) (gen : TE → Copier) (rec : TE → Code) (e : TE)
     (hc : hasCustom env e = true) :
-    exec call (mapValOf env fa rec e) = call ∧
-    (∀ t a vs n, exec call (sliceBodyOf env fa rec t e) (.slice a vs) n =
+    exec call gen (mapValOf env fa rec e) = call ∧
+    (∀ t a vs n, exec call gen (sliceBodyOf env fa rec t e) (.slice a vs) n =
         (.slice n (mapVals call vs (n + 1)).1, (mapVals call vs (n + 1)).2)) ∧
-    (∀ m : Field, m.t = e → exec call (fixOf env fa rec m) = call) ∧
-    (∀ f, exec call (arrayElemOf env fa rec (f + 1) e) = call) ∧
-    (∀ dp a d n, exec call (ptrBodyOf env fa rec dp e) (.ptr a d) n = (.ptr n (call d (n + 1)).1, (call d (n + 1)).2)) := by
+    (∀ m : Field, m.t = e → exec call gen (fixOf env fa rec m) = call) ∧
+    (∀ f, exec call gen (arrayElemOf env fa rec (f + 1) e) = call) ∧
+    (∀ dp a d n, exec call gen (ptrBodyOf env fa rec dp e) (.ptr a d) n = (.ptr n (call d (n + 1)).1, (call d (n + 1)).2)) := by
   refine ⟨?_, ?_, ?_, ?_, ?_⟩
   · unfold mapValOf; simp only [hc, ↓reduceIte]; split <;> rfl
   · intro t a vs n; unfold sliceBodyOf; simp only [hc, ↓reduceIte, exec]
